@@ -40,8 +40,11 @@ TRUSTED_BASE = [
     "(FileHasher) tied to recheck.py / hasher.py by differential execution of whole traces (extracted OCaml vs the real iterators)",
     "extraction: ExtrOcamlBasic, ExtrOcamlString; OCaml SHA-1/SHA-256 (ocaml/sha.ml, self-tested) and the adapter "
     "ocaml/areas/recheck.ml (cuts the recorded strings with the extracted `chunks`) for the correspondence only",
-    "from the integers to the float: matched = consumed > 0 gives (matched/consumed)*100 == 100.0 and matched < consumed < 2^53 gives "
-    "a value < 100 in IEEE binary64 round-to-nearest (DESIGN C04; not formalised, checked on every evaluated case)",
+    "from the integers to the float: Proofs/Percent.v proves over Flocq's binary64 rounding (an IEEE operation returns the rounding of the "
+    "exact real result; round to nearest even) that (m/c)*100 is exactly 100 iff m = c and below 100 otherwise for 0 <= m <= c, 0 < c <= 2^53 "
+    "(tight bound 2^54); these *_float_* theorems depend on the axioms of Coq's standard library of reals: ClassicalDedekindReals.sig_not_dec, "
+    "ClassicalDedekindReals.sig_forall_dec, FunctionalExtensionality.functional_extensionality_dep, Classical_Prop.classic; CPython's int/int "
+    "true division is correctly rounded (trusted); the relation is also asserted on every evaluated case",
     "mapping of metafile entries to disk paths: hand model Model/CheckPaths.v (Checker.__init__ / find_root / check_paths / "
     "walk_file_tree over three file-system oracles; no file size is an input) tied by differential execution on real scratch "
     "directories (root, per-entry path / length / pieces root, total; payload root and parent; nested same-name entries; damaged states)",
